@@ -64,6 +64,21 @@ def parse_settings(text):
     return inputs, outputs, iterations
 
 
+def corpus_specs(pid):
+    """corpus/<pid>/*.json -> job specs (name, st, W, mode, program, base), run before the generated ones"""
+    out = []
+    for f in sorted((fw.VERIF / 'corpus' / pid).glob('*.json')):
+        d = json.loads(f.read_text())
+        base = d.get('base')
+        if 'base_file' in d:
+            base = (fw.REPO / d['base_file']).read_text()
+        if 'base_rstrip_then_append' in d:
+            base = base.rstrip('\n') + d['base_rstrip_then_append']
+        out.append({'name': d['name'], 'st': d['settings'], 'W': d['W'], 'mode': d.get('mode', 'pool'),
+                    'program': d.get('program', 'HIP_RA_X'), 'base': base})
+    return out
+
+
 def dist_of(word):
     w = word.strip()
     return next((d for d in DISTS if w.startswith(d)), None)
